@@ -500,6 +500,7 @@ pub fn gen_scenario(t: &mut Tape, p: &Profile) -> Scenario {
             None
         },
         tcp_open: !t.chance(400),
+        tcp_reject_code: if p.target_kinds && t.chance(80) { Some([13u8, 10, 9, 1, 3][t.pick(5)]) } else { None },
         quote: gen_quote(t, p),
         layout: gen_layout(t, p),
     };
@@ -622,5 +623,6 @@ pub fn gen_scenario(t: &mut Tape, p: &Profile) -> Scenario {
         neighbour: None,
         record_rx: false,
         alone_equal: false,
+        clear_after_round: None,
     }
 }
